@@ -926,7 +926,7 @@ func (ck *Check) recoveryBranch(rule string) {
 						var delta *Term
 						st := a.TScaleOpts.Underlying().(*types.Struct)
 						for i := 0; i < st.NumFields(); i++ {
-							if st.Field(i).Name() == "nodesDelta" && t.Kind == "struct" {
+							if st.Field(i) == field(a.TScaleOpts, "nodesDelta") && t.Kind == "struct" {
 								delta = t.Args[i]
 							}
 						}
